@@ -89,7 +89,7 @@ def hand_packages(rng):
             "type H1 struct {\n\t*HH\n\tK int\n}\n\ntype HH struct {\n\t*HHH\n\tL int\n}\n\ntype HHH struct {\n\t*HHHH\n\tM int\n}\n\ntype HHHH struct {\n\tN int\n}\n\n"
             "type P struct {\n\tA int\n\tX int\n\tY int\n\tB int\n\tC int\n}\n")
     src = ("package src\n\ntype D struct {\n\tA   int\n\tX   int\n\tY   int\n\tB   int\n\tC   int\n\tK   int\n\tL   int\n\tM   int\n\tN   int\n\tTop int\n}\n\ntype P struct {\n\t*G1\n\t*G2\n}\n\n"
-           "type G1 struct {\n\tA int\n\t*GG\n}\n\ntype GG struct {\n\tX int\n\t*GGG\n}\n\ntype GGG struct {\n\tY int\n}\n\ntype G2 struct {\n\tB int\n\tC int\n}\n")
+           "type G1 struct {\n\t*GG\n\tA int\n}\n\ntype GG struct {\n\t*GGG\n\tX int\n}\n\ntype GGG struct {\n\tY int\n}\n\ntype G2 struct {\n\tB int\n\tC int\n}\n")
     out.append({"cmd": "map", "flags": ["-path=../dest"], "files": {"src/s.go": src, "dest/d.go": dest}, "cwd": "src", "gofile": "s.go",
                 "types": ["D", "P"], "all_types": ["D", "P"], "setup": [], "feats": {"map": 1, "hand-ptr-chains": 1}, "star": False, "nexec": 12})
     return out
